@@ -463,6 +463,7 @@ func c12Dedupe(p *Prog, r *Report) {
 }
 
 func c12Diff(p *Prog, r *Report) {
+	c12DiffByID(p, r, "D3-update-is-diff")
 	cellThroughCopies = true
 	defer func() { cellThroughCopies = false }()
 	cp := p.Func(pkgRemediation, "ConstructPatches")
